@@ -178,7 +178,8 @@ def loopIter (env : Env) : Nat → Block → Vm → Except Err Vm
         match exec env fuel body vm with
         | .error e => .error e
         | .ok vm => loopIter env fuel body vm
-    else vm.execRow env .drop .end
+    else if vm.peek = 0 then vm.execRow env .drop .end
+    else .error (.notBinary vm.peek)
 end
 
 end Vm
